@@ -34,8 +34,34 @@ class SchemaSet:
         raise KeyError(n)
 
 
-def schema_defs(seed, tier, n_generated, feature_overrides=None, label="p21"):
-    """deterministic list of schema dicts: kitchen sink + n generated"""
+N_IMPORTED = {"quick": 8, "thorough": 40}
+
+
+def imported_defs(seed, tier, label, want=None):
+    """shipped single-schema EXPRESS files (test/unitary_schemas) that the population model can express and that
+    declare at least one instantiable entity; a seeded subset in the quick tier, all of them in the thorough tier"""
+    from . import expimport
+    ok, bad = expimport.import_all()
+    ok = [sd for sd in ok if sd["simple_ok"] and (want is None or want(sd))]
+    r = core.rng(seed, label, "imported")
+    import os
+    n = min(len(ok), int(os.environ.get("VERIF_N_IMPORTED") or N_IMPORTED[tier]))     # the override is an exploration aid
+    return sorted(r.sample(ok, n), key=lambda sd: sd["name"]), bad
+
+
+def shipped_coverage(ss):
+    """evidence: which shipped schema files are in the set, and which ones the population model cannot express"""
+    from . import expimport
+    try:
+        bad = expimport.import_all()[1]
+    except Exception:
+        bad = []
+    return {"schemas_shipped": [it["sd"]["source"] for it in ss.items if it["sd"].get("source")],
+            "shipped_not_expressible": [{"file": p, "why": w[:120]} for p, w in bad]}
+
+
+def schema_defs(seed, tier, n_generated, feature_overrides=None, label="p21", imported=True, want=None):
+    """deterministic list of schema dicts: kitchen sink + n generated + imported shipped schemas"""
     out = [kitchen.kitchen_sink()]
     for k in range(n_generated):
         r = core.rng(seed, label, "schema", k)
@@ -43,6 +69,13 @@ def schema_defs(seed, tier, n_generated, feature_overrides=None, label="p21"):
         if feature_overrides:
             feat.update(feature_overrides)
         out.append(pm.gen_schema(r, "g%s%d" % (label, k), feat))
+    if imported:
+        out += imported_defs(seed, tier, label, want)[0]
+    import os
+    flt = os.environ.get("VERIF_SCHEMA_FILTER")     # exploration aid ("imported" or a name pattern); not used by registered commands
+    if flt:
+        import fnmatch
+        out = [sd for sd in out if (sd.get("features", {}).get("imported") if flt == "imported" else fnmatch.fnmatch(sd["name"], flt))]
     return out
 
 
@@ -176,6 +209,7 @@ class P21Check(_CheckBase):
     pool = "pool"
     n_generated = {"quick": 10, "thorough": 30}
     feature_overrides = {"renamed_select": False, "renamed_enum": False, "optional_elems": False}   # constructs of open C01 findings stay out
+    want_imported = None     # filter on the shipped schemas added to the pool (C11: those with INVERSE attributes)
     max_insts = 12
     sizes = [1, 2, 3, 5, 8]
 
@@ -186,7 +220,7 @@ class P21Check(_CheckBase):
         if getattr(self, "replay_mode", False):
             self.ss = SchemaSet()
             return
-        defs = schema_defs(seed, tier, self.n_generated[tier], label=self.pool, feature_overrides=self.feature_overrides)
+        defs = schema_defs(seed, tier, self.n_generated[tier], label=self.pool, feature_overrides=self.feature_overrides, want=self.want_imported)
         self.ss = build_schema_set(defs)
         if not self.ss.items:
             raise RuntimeError("no schema library could be built: %s" % self.ss.rejected)
@@ -254,7 +288,7 @@ class P21Check(_CheckBase):
             yield finish(dict(plan, delivery=[{"kind": "whole"}, {"kind": "whole"}]))
 
     def extra_coverage(self, tier, results):
-        return {"schemas": [it["name"] for it in self.ss.items], "schemas_rejected": self.ss.rejected}
+        return dict(shipped_coverage(self.ss), schemas=[it["name"] for it in self.ss.items], schemas_rejected=self.ss.rejected)
 
 
 def parse_inst_text(text):
